@@ -475,6 +475,8 @@ def shard(sh):
             nonlocal n, fd0
             n += 1
             run.case((common.sha12(case["stream"]), case["mode"], case["kind"]), nontrivial=len(case["stream"]) > 0)
+            # "no input can wedge a worker": a case that keeps the process computing (CPU time, not wall clock) ends the shard
+            common.cpu_guard(case)
             v, out = run_case(run, e2, hs, case)
             if out["hung"]:
                 hangs[0] += 1
